@@ -1,0 +1,17 @@
+//go:build verif
+
+package circularbuffer
+
+// VerifState returns a copy of the ring and its cursors. Read-only accessor for the verification harness.
+func (queue *Queue[E]) VerifState() (values []E, start, end int, full bool, size int, maxSize int) {
+	values = make([]E, len(queue.values))
+	copy(values, queue.values)
+	return values, queue.start, queue.end, queue.full, queue.size, queue.maxSize
+}
+
+// VerifState returns the wrapped queue's ring and cursors.
+func (s *QueueSafe[E]) VerifState() (values []E, start, end int, full bool, size int, maxSize int) {
+	s.lock.Lock()
+	defer s.lock.Unlock()
+	return s.unsafe.VerifState()
+}
